@@ -1742,9 +1742,10 @@ func (schema *Schema) visitJSONString(settings *schemaValidationSettings, value 
 					return err
 				}
 				me = append(me, err)
+				cp = nil // may hold a typed nil matcher
 			}
 		}
-		if !cp.MatchString(value) {
+		if cp != nil && !cp.MatchString(value) {
 			err := &SchemaError{
 				Value:                 value,
 				Schema:                schema,
